@@ -1,3 +1,5 @@
 //! C05 judge: raw tree store, header and proofs against the independent Merkle reference.
 use crate::world::World;
 pub fn judge_storage(_w: &mut World, _n: usize) {}
+
+pub fn judge_proof(_w: &mut World, _p: &hypercore::Proof) {}
